@@ -15,7 +15,8 @@ These inference passes walk the IR backwards.
 
 from collections.abc import Iterable
 
-from xdsl.dialects import scf
+from xdsl.dialects import arith, scf
+from xdsl.dialects.builtin import IntegerAttr
 from xdsl.ir import Block, BlockArgument, Region, SSAValue
 
 from snaxc.dialects import accfg
@@ -23,40 +24,88 @@ from snaxc.dialects import accfg
 State = dict[str, SSAValue]
 
 
-def infer_state_of(state_var: SSAValue) -> State:
+def infer_state_of(state_var: SSAValue, assumed: dict[SSAValue, State] | None = None) -> State:
     """
     Entrance function of the inference pass.
 
     This walks up the def-use chain to compute all values
     that are guaranteed to be set in this state.
+
+    `assumed` maps loop-carried block arguments to the state that is assumed for them while
+    the body of their loop is being walked (see `infer_state_at_loop_head`).
     """
+    if assumed is not None and state_var in assumed:
+        return dict(assumed[state_var])
     owner = state_var.owner
     match owner:
         case accfg.SetupOp(in_state=None) as setup_op:
             return {name: val for name, val in setup_op.iter_params()}
         case accfg.SetupOp(in_state=st) as setup_op if st is not None:
-            in_state = infer_state_of(st)
+            in_state = infer_state_of(st, assumed)
             in_state.update(dict(setup_op.iter_params()))
             return in_state
         case scf.IfOp() as if_op:
-            return state_intersection(*infer_states_for_if(if_op, state_var))
+            return state_intersection(*infer_states_for_if(if_op, state_var, assumed))
         case scf.ForOp() as for_op:
             yield_op = for_op.body.block.last_op
             assert isinstance(yield_op, scf.YieldOp)
             assert state_var in for_op.results  # this must be true because state_var.owner == for_op
-            return infer_state_of(yield_op.operands[for_op.results.index(state_var)])
+            idx = for_op.results.index(state_var)
+            head_state = infer_state_at_loop_head(for_op, for_op.body.block.args[idx + 1], assumed)
+            if not _runs_at_least_once(for_op):
+                # the loop body may not execute at all: only what holds at the
+                # loop head (before the loop *and* after every iteration) is known
+                return head_state
+            return infer_state_of(
+                yield_op.operands[idx], {**(assumed or {}), for_op.body.block.args[idx + 1]: head_state}
+            )
         case Block() as block:
             match block.parent_op():
                 case scf.ForOp() as for_op:
                     assert isinstance(state_var, BlockArgument)  # must be a block argument for owner to be a block!
-                    return infer_state_of(for_op.iter_args[state_var.index - 1])
+                    return infer_state_at_loop_head(for_op, state_var, assumed)
                 case _:
                     return {}
         case _:
             raise ValueError(f"Cannot infer state for op {owner.name}")
 
 
-def infer_states_for_if(op: scf.IfOp, state: SSAValue) -> tuple[State, State]:
+def infer_state_at_loop_head(
+    for_op: scf.ForOp, block_arg: BlockArgument, assumed: dict[SSAValue, State] | None = None
+) -> State:
+    """
+    The state of a loop-carried block argument must hold at the start of *every* iteration:
+    it is the state before the loop, restricted to the fields that still hold the same
+    value at the end of the loop body (computed as a fixpoint, assuming the state at the
+    loop head while walking the body).
+    """
+    yield_op = for_op.body.block.last_op
+    assert isinstance(yield_op, scf.YieldOp)
+    yielded = yield_op.operands[block_arg.index - 1]
+    head_state = infer_state_of(for_op.iter_args[block_arg.index - 1], assumed)
+    while True:
+        end_state = infer_state_of(yielded, {**(assumed or {}), block_arg: head_state})
+        new_head_state = state_intersection(head_state, end_state)
+        if new_head_state == head_state:
+            return head_state
+        head_state = new_head_state
+
+
+def _runs_at_least_once(for_op: scf.ForOp) -> bool:
+    """
+    Check if the loop bounds are constants that guarantee at least one iteration.
+    """
+    bounds: list[int] = []
+    for bound in (for_op.lb, for_op.ub):
+        if not isinstance(bound.owner, arith.ConstantOp) or not isinstance(bound.owner.value, IntegerAttr):
+            return False
+        bounds.append(bound.owner.value.value.data)
+    return bounds[0] < bounds[1]
+
+
+def infer_states_for_if(
+    op: scf.IfOp, state: SSAValue, assumed: dict[SSAValue, State] | None = None
+) -> tuple[State, State]:
     """
     Walk both sides of the if/else block and return the computed
     states for the given state SSA value (`state`)
@@ -71,7 +120,7 @@ def infer_states_for_if(op: scf.IfOp, state: SSAValue) -> tuple[State, State]:
         assert isinstance(yield_op, scf.YieldOp)
         # we know the yield op has the same number of operands as the
         # scf.if has results, so [idx] must be defined
-        states.append(infer_state_of(yield_op.operands[idx]))
+        states.append(infer_state_of(yield_op.operands[idx], assumed))
     assert len(states) == 2
     return states[0], states[1]
 
